@@ -27,6 +27,9 @@
  */
 #define _GNU_SOURCE
 #include <errno.h>
+#include <sys/wait.h>
+#include <sys/ioctl.h>
+#include <net/if.h>
 #include <fcntl.h>
 #include <poll.h>
 #include <sched.h>
@@ -58,7 +61,7 @@ static FILE *out;
 static char root[400], xroot[480], creds[400];
 static int xid, stepno;
 static char xlabel[64];
-static bool ns_ready, ns_tried;
+static bool ns_ready, ns_tried, in_child, skip_to_next;
 static char ns_cur[64];
 
 struct sock {
@@ -506,6 +509,21 @@ static void do_ns(const char *name)
     emit(&e);
 }
 
+static bool lo_up(void)
+{
+    int fd = socket(AF_INET, SOCK_DGRAM, 0);
+    if (fd < 0)
+	return false;
+    struct ifreq ifr;
+    memset(&ifr, 0, sizeof(ifr));
+    strcpy(ifr.ifr_name, "lo");
+    bool ok = ioctl(fd, SIOCGIFFLAGS, &ifr) == 0;
+    ifr.ifr_flags |= IFF_UP | IFF_RUNNING;
+    ok = ok && ioctl(fd, SIOCSIFFLAGS, &ifr) == 0;
+    close(fd);
+    return ok;
+}
+
 /* ---- updates (also run from inside a library call) --------------------------------------------------------- */
 static void exec_update(char *line, int mid)
 {
@@ -910,8 +928,43 @@ int main(int argc, char **argv)
 	    w[n++] = p;
 	if (n == 0 || w[0][0] == '#')
 	    continue;
-	if (strcmp(w[0], "X") == 0 && n >= 2)
+	if (skip_to_next && strcmp(w[0], "X") != 0)
+	    continue;		/* the rest of this execution was performed by the forked child */
+	if (strcmp(w[0], "X") == 0 && n >= 2) {
+	    skip_to_next = false;
 	    new_execution(atoi(w[1]), n > 2 ? w[2] : "");
+	} else if (strcmp(w[0], "nsf") == 0 && n == 2) {
+	    /* the rest of the execution runs in a forked child that moves to a network namespace of its own and names
+	       it: what the library learnt about its thread and namespace before the fork must not leak into the child */
+	    fflush(out);
+	    pid_t pid = fork();
+	    if (pid == 0) {
+		in_child = true;
+		ns_cur[0] = '\0';		/* the parent's name stays mounted; it is not this process's namespace */
+		bool moved = unshare(CLONE_NEWNET) == 0 && lo_up();
+		if (moved)
+		    do_ns(w[1]);
+		else {
+		    struct ev e;
+		    ev_init(&e, "ns");
+		    e.ns = w[1];
+		    e.ok = 0;
+		    e.why = "no network namespace of its own";
+		    emit(&e);
+		}
+	    } else {
+		int st = 0;
+		if (pid > 0)
+		    waitpid(pid, &st, 0);
+		if (pid < 0 || !WIFEXITED(st) || WEXITSTATUS(st) != 0) {
+		    struct ev e;
+		    ev_init(&e, "end");
+		    e.why = "forked part of the execution did not end normally";
+		    emit(&e);
+		}
+		skip_to_next = true;
+	    }
+	}
 	else if (strcmp(w[0], "mid") == 0 && n >= 4) {
 	    if (nmid >= 8)
 		die("too many mid updates");
@@ -939,6 +992,11 @@ int main(int argc, char **argv)
 	    e.nnew = sc.n_new;
 	    e.ok = sc.stray_free;
 	    emit(&e);
+	    if (in_child) {
+		ns_unname();
+		fflush(out);
+		_exit(0);
+	    }
 	} else if (strcmp(w[0], "put") == 0 || strcmp(w[0], "flipL") == 0 || strcmp(w[0], "flipF") == 0 ||
 		   strcmp(w[0], "env") == 0) {
 	    char buf[1024];
